@@ -634,6 +634,11 @@ def desugar_exitstack(fn: ast.FunctionDef) -> ast.FunctionDef:
             return ("close", call.args[0].value)
         if m == "push" and len(call.args) == 1:
             return ("close", call.args[0])
+        if m == "callback" and call.args and isinstance(call.args[0], (ast.Name, ast.Attribute)) and not any(isinstance(a, ast.Starred) for a in call.args) \
+                and all(isinstance(a, (ast.Name, ast.Constant, ast.Attribute)) for a in call.args[1:]) \
+                and all(k.arg is not None and isinstance(k.value, (ast.Name, ast.Constant, ast.Attribute)) for k in call.keywords):
+            # S.callback(f, a, b): f(a, b) runs when the block is left (the arguments are names / constants: same values then)
+            return ("call", ast.Call(func=call.args[0], args=list(call.args[1:]), keywords=list(call.keywords)))
         return None
 
     def close_stmt(obj: ast.expr) -> ast.stmt:
@@ -650,6 +655,10 @@ def desugar_exitstack(fn: ast.FunctionDef) -> ast.FunctionDef:
                 return out
             if r is not None and r[0] == "close":
                 out.append(ast.copy_location(ast.Try(body=wrap(rest, S) or [ast.Pass()], handlers=[], orelse=[], finalbody=[close_stmt(r[1])]), st))
+                return out
+            if r is not None and r[0] == "call":
+                fin = ast.copy_location(ast.Expr(value=r[1]), st)
+                out.append(ast.copy_location(ast.Try(body=wrap(rest, S) or [ast.Pass()], handlers=[], orelse=[], finalbody=[fin]), st))
                 return out
             if isinstance(st, ast.If):
                 regs = [(blk, j, registration(x, S)) for blk in (st.body, st.orelse) for j, x in enumerate(blk) if registration(x, S) is not None]
